@@ -275,7 +275,20 @@ def run(ctx):
     texts = ["".join(v.value if isinstance(v, ast.Constant) else "X" for v in f.values) for f in fs]
     ok = any("def parseall(io, this):" in t and "def buildall(obj, io, this):" in t and "Compiled(parseall, buildall)" in t for t in texts)
     ctx.ob("C04.R4", comp, ok, "the module template defines parseall(io, this) / buildall(obj, io, this) and wraps them in Compiled(parseall, buildall)", key="module template")
-    ctx.floor("C04.R4", 13)
+    # the compiled instance is a function of the construct alone: compile()/_compileinstance/_compileparse/_compilebuild keep no
+    # module- or class-level state (a cache keyed by the generated text would hand one construct the code, and the linked lambdas, of another)
+    from . import C17
+    shared = C17.module_names(M)
+    for meth in ("compile", "_compileinstance", "_compileparse", "_compilebuild", "_emitparse", "_emitbuild"):
+        f17 = M.method("Construct", meth)
+        if f17 is None:
+            raise AnalysisError("anchor vanished: Construct." + meth)
+        sub17 = type(ctx)("C17", ctx.tier, ctx.root, model=ctx.model)
+        sub17._summ = summariser(ctx)
+        C17.check_effects(sub17, f17, "Construct", shared, False)
+        bad = [o for o in sub17.obligations if not o.ok]
+        ctx.ob("C04.R4", f17, not bad, "Construct." + meth + " keeps no module/class-level state" + ((": " + bad[0].what) if bad else ""), key=meth + " stateless")
+    ctx.floor("C04.R4", 19)
 
     # ---------------------------------------------------------------- R5 patched closures
     C16.arity_check(ctx, "C04.R5")
